@@ -3,6 +3,7 @@
 -/
 import Nlmodel.Model.Printer
 import Nlmodel.Proofs.Lemmas.Pratt
+import Nlmodel.Proofs.C08
 namespace Nl
 namespace C07
 
@@ -52,6 +53,62 @@ example : printE (.infix (.infix (.ident ['a']) .sub (.ident ['b'])) .sub (.iden
     = [.ident ['a'], .minus, .ident ['b'], .minus, .ident ['c']] := by decide
 example : RT.BinE (.infix (.infix (.ident ['a']) .sub (.ident ['b'])) .sub (.ident ['c'])) :=
   .bin _ _ _ (by simp [RT.isBin]) (.bin _ _ _ (by simp [RT.isBin]) (.ident _) (.ident _)) (.ident _)
+
+/-- all identifiers of the tree are spellable: not keywords, letters/digits/underscore, not starting with a digit -/
+def WFIdents (cc : CharClass) : Expr → Prop
+  | .ident n => LR.WFTok cc (.ident n)
+  | .infix l _ r => WFIdents cc l ∧ WFIdents cc r
+  | _ => True
+
+theorem printE_wf (cc : CharClass) (e : Expr) (h : RT.BinE e) (hi : WFIdents cc e) : ∀ t ∈ printE e, LR.WFTok cc t := by
+  induction h with
+  | ident n => intro t ht; simp only [printE, List.mem_singleton] at ht; subst ht; exact hi
+  | int v h0 h1 =>
+    intro t ht
+    simp only [printE, List.mem_singleton] at ht; subst ht
+    obtain ⟨_, hall, hne⟩ := C14.natToDec_spec v.toNat
+    cases hx : natToDec v.toNat with
+    | nil => exact absurd hx hne
+    | cons c cs =>
+      rw [hx] at hall
+      simp only [List.all_cons, Bool.and_eq_true] at hall
+      exact ⟨c, cs, rfl, hall.1, hall.2⟩
+  | bool b => intro t ht; simp only [printE, List.mem_singleton] at ht; subst ht; cases b <;> trivial
+  | bin l op r hop _ _ ihl ihr =>
+    intro t ht
+    simp only [WFIdents] at hi
+    simp only [printE, List.mem_append, List.mem_singleton] at ht
+    have hparen : ∀ (ts : List Token), (∀ x ∈ ts, LR.WFTok cc x) → ∀ x ∈ paren ts, LR.WFTok cc x := by
+      intro ts hts x hx
+      simp only [paren, List.mem_cons, List.mem_append, List.not_mem_nil, or_false] at hx
+      rcases hx with (rfl | hx) | rfl
+      · trivial
+      · exact hts x hx
+      · trivial
+    rcases ht with (ht | ht) | ht
+    · split at ht
+      · exact hparen _ (ihl hi.1) t ht
+      · exact ihl hi.1 t ht
+    · subst ht
+      rcases hop with rfl | rfl | rfl | rfl | rfl | rfl | rfl | rfl | rfl | rfl | rfl | rfl | rfl <;> trivial
+    · split at ht
+      · exact hparen _ (ihr hi.2) t ht
+      · exact ihr hi.2 t ht
+
+/-- ROUND TRIP AT THE LEVEL OF TEXT (C07 + C08): print a tree over the binary operators with minimal
+    parentheses, spell the tokens with ANY layout (no blanks where allowed, any whitespace, comments),
+    tokenize and parse: the same tree comes back -/
+theorem C07_text_round_trip (cc : CharClass) (hcc : LR.CCWF cc) (e : Expr) (h : RT.BinE e) (hi : WFIdents cc e) (ks : List Nat) :
+    parse cc (render (printProgram (.cons (.expr e) .nil)) ks) = .ok (.cons (.expr e) .nil) := by
+  unfold parse
+  have hw : ∀ t ∈ printProgram (.cons (.expr e) .nil), LR.WFTok cc t := by
+    intro t ht
+    simp only [printProgram, printStmts, printS, List.append_nil, List.mem_append, List.mem_singleton] at ht
+    rcases ht with ht | rfl
+    · exact printE_wf cc e h hi t ht
+    · trivial
+  rw [C08.C08_lex_render cc hcc _ ks hw]
+  exact C07_print_parse_program e h
 
 end C07
 end Nl
